@@ -178,14 +178,18 @@ def finish (rec : Rec) (chain : RChain) (doc : Str) (cur : Cursor) (fl : Fl) : R
 
 /-- `ResolveReference(compiler, reference)` -/
 def resolveRef (docs : Docs) (rec : Rec) (chain : RChain) (ref : Reference) : RR :=
-  match docs ref.resource with
+  -- `Compile(reference.resource_id)` applies `ToResourceId` once more: a reference whose resource id still ends
+  -- in `.yaml` (`b.yaml.yaml:/m`, `import_preset: default.yaml`) loads — on every resolution anew — the document
+  -- named without it
+  let res := toResourceId ref.resource
+  match docs res with
   | none => { val := none, fl := {} }
   | some root =>
-    if ref.path.isEmpty || ref.path == [c_slash] then finish rec chain ref.resource (.raw [] root) {}
+    if ref.path.isEmpty || ref.path == [c_slash] then finish rec chain res (.raw [] root) {}
     else
-      let w := walk rec chain ref.resource (splitPath ref.path) (.raw [] root) {}
+      let w := walk rec chain res (splitPath ref.path) (.raw [] root) {}
       match w.1 with
-      | some cur => finish rec chain ref.resource cur w.2
+      | some cur => finish rec chain res cur w.2
       | none => { val := none, fl := w.2 }
 
 /-! ### applying a node's own dependencies to its slot -/
